@@ -362,7 +362,7 @@ impl Property for C16 {
         ]
     }
     fn cases(&self, tier: Tier) -> usize {
-        tier.pick(30000, 250_000)
+        tier.pick(80000, 2_500_000)
     }
     fn strategy(&self, tier: Tier) -> BoxedStrategy<Case> {
         strategy(tier.pick(8, 10))
